@@ -867,6 +867,22 @@ void mon_connect(const Run& run, const Ix&, Verdicts& v, vu::Result& res) {
         }
         // addresses of one host are tried in the order returned, without delay
     }
+    // C11 (c): every trigger is resolved. At the autoconnect_stream level (stream_mode 1) a write issued on an open stream either
+    // goes out or comes back with try_again once the reconnection it triggered has finished; with a reachable broker that
+    // takes at most the scripted bad attempts (5 s each) plus back-off. Judged for writes issued >= 120 s before the end.
+    if (run.sc->stream_mode == 1) {
+        uint64_t final_seq = UINT64_MAX; vt final_t = run.out.t_end;
+        for (auto& e : h.ev) if (e.kind == Ev::note && e.s == "final phase") { final_seq = e.seq; final_t = e.t; }
+        for (auto& o : h.ops) {
+            if (o.kind != OpKind::s_write || o.signalled) continue;
+            bool later_terminal = false;
+            for (auto& e : h.ev) if (e.kind == Ev::terminal && e.seq > o.seq_init && e.seq < final_seq) later_terminal = true;
+            if (later_terminal || final_t - o.t_init < 120 * SEC) continue;
+            res.count("stream_triggers_judged");
+            if (!o.completions || o.seq_done > final_seq)
+                v.add("C11", "C11:trigger-never-resolved", op_str(o) + ": a write on the open stream was neither performed nor told to try again within " + std::to_string((final_t - o.t_init) / SEC) + " s although the broker was reachable");
+        }
+    }
     // C11 (b): single flight
     for (auto& e : h.ev) if (e.kind == Ev::note && e.s.rfind("overlap:", 0) == 0) v.add("C11", "C11:overlapping-attempts", e.s + " (t=" + std::to_string(e.t / 1e9) + "s)");
     if (run.w->max_resolving > 1) v.add("C11", "C11:overlapping-resolutions", "two name resolutions in flight at once");
@@ -877,6 +893,7 @@ void mon_connect(const Run& run, const Ix&, Verdicts& v, vu::Result& res) {
         for (auto& e : h.ev) {
             if (e.kind == Ev::terminal && (e.b == 0 || e.b == 2 || e.b == 3)) { quiet = true; quiet_from = e.seq; }
             if (e.kind == Ev::api_init && e.b == int(OpKind::run)) quiet = false;
+            if (e.kind == Ev::note && e.s.rfind("script: stream reopened", 0) == 0) quiet = false;
             if (quiet && e.seq > quiet_from && (e.kind == Ev::connect_begin || e.kind == Ev::resolve_begin))
                 v.add("C11", std::string("C11:attempt-after-cancel:") + ev_name(e.kind), std::string(ev_name(e.kind)) + " after the client had been cancelled (t=" + std::to_string(e.t / 1e9) + "s)");
         }
